@@ -64,7 +64,7 @@ Conforms ==
                      note |-> "composite result differs from the three real stages wired in sequence"])
 ObsMatches ==
   ~StageExplored(fs, ss, es)
-  \/ (G[i].obs[1] = ImEMods(es) /\ G[i].obs[2] = ImEMode(es))
+  \/ ((ImEMods(es) = -1 \/ G[i].obs[1] = ImEMods(es)) /\ G[i].obs[2] = ImEMode(es))
   \/ BadB([prop |-> "C18", kind |-> "kb-getter", comp |-> Comp, access |-> G[i].access,
           ctx |-> <<fs, ss, es>>, observed |-> G[i].obs, expected |-> <<ImEMods(es), ImEMode(es)>>])
 
